@@ -33,15 +33,15 @@ for l in (1, 2, 7, 12):
     for kind in ('select', 'select_zero', 'select_iter', 'select_zero_iter', 'pred_succ'):
         for regime in ('short', 'long'):
             q = (l == 7 and kind in ('select', 'select_zero')) or (l == 2 and kind in ('select_iter', 'select_zero_iter', 'pred_succ'))
-            inst(P, 'c01_%s_%s_l%d' % (kind, regime, l), 'c01::%s(%d)' % (kind, l), unwind=26, unwindset=select_unwindset(l),
-                 stubs=ALLOC + (['force_long'] if regime == 'long' else []), tier='quick' if q else 'thorough',
+            inst(P, 'c01_%s_%s_l%d' % (kind, regime, l), 'c01::%s(%d, %s)' % (kind, l, 'true' if regime == 'long' else 'false'), unwind=26, unwindset=select_unwindset(l),
+                 stubs=ALLOC, tier='quick' if q else 'thorough',
                  cap=900, cap_thorough=3600, mem=16, weight=100 + l,
                  desc='%s with the real SelectSupport::new, %s-superblock path: %d symbolic bits, argument over all usize' % (kind, regime, l),
                  shape={'len': l, 'regime': regime})
 
 extra(P, assumptions=[
     'R2 allocation stubs in the select instances (RawVector::new/with_capacity -> fixed 1024-bit buffer, RawVector::reserve asserts it suffices, Vec::push no-grow)',
-    'R4: instances tagged long force the explicit-offset regime (first bits::bit_len call in SelectSupport::new returns 0); instances tagged short run the real rule, which picks block samples at these sizes; so both code paths of new() and select() run on one-word vectors; the real threshold rule for larger vectors is outside the claim',
+    'R4: instances tagged long force the explicit-offset regime through the cfg(simple_sds_verif) hook VERIF_FORCE_LONG (SelectSupport::new then uses threshold 0), under Kani and in native replay alike; instances tagged short run the real rule, which picks block samples at these sizes; so both code paths of new() and select() run on one-word vectors; the real threshold rule for larger vectors is outside the claim',
 ], options={'no_reach': True}, coverage={'outside_bounds': [
     'select/select_zero/predecessor/successor on vectors longer than 12 bits: measured 33 s at 1 bit, 349 s at 7 bits, 561 s at 12 bits, 20 bits exceeds 16 GB (811k SSA steps, 55M clauses: every IntVector push/read is a symbolic-offset access into one of several aliased heap buffers)',
     'more than one select superblock (> 4096 set or unset bits): the 2*superblock sample indexing across superblocks is not executed',
